@@ -189,6 +189,43 @@ def dsk7(ctx, c):
     else:
         c.finding("granule_in_use", verdict, "granule_in_use %s; every FAT byte other than FF (00-43 = link to that granule, C0-C9 = last granule) marks a granule that is part of a file, "
                   "so e.g. a granule whose successor is granule 0 would be handed out again" % verdict, where)
+    # the argument check accepts exactly the granules that exist
+    from ..consteval import fold_body as _fb, Raised as _Raised, NotConst as _NC2
+    gp = [p_ for p_ in fn.params if p_ != "self"][0]
+    guards = [st for st in body_without_doc(fn.node) if isinstance(st, ast.If) and st.body and isinstance(st.body[-1], ast.Raise)]
+    if guards:
+        wrong = []
+        try:
+            for g_, legal in ((0, True), (1, True), (33, True), (66, True), (67, True), (68, False), (-1, False), (255, False)):
+                e_ = dict(ctx.env)
+                e_[gp] = g_
+                try:
+                    _fb(guards, e_)
+                    raised = False
+                except _Raised:
+                    raised = True
+                if raised == legal:
+                    wrong.append((g_, raised))
+            if wrong:
+                c.finding("granule_in_use:range", "granule %d is %s" % (wrong[0][0], "rejected" if wrong[0][1] else "accepted"),
+                          "granule_in_use %s granule number %d; the disk has granules 0..67, all of which must be usable and nothing else" % ("rejects" if wrong[0][1] else "accepts", wrong[0][0]), where)
+            else:
+                c.ok("granule_in_use:range", "accepts 0..67, rejects everything else", where)
+        except _NC2 as e:
+            c.undecided("granule_in_use:range", "guard-not-foldable", str(e), where)
+    # a new image is all FF: every granule free, every directory slot never used
+    init = repo.method(CLS, "__init__", inherited=False)
+    fills = [n for n in ast.walk(init.node) if isinstance(n, ast.Assign) and U(n.targets[0]) == "self.buffer" and isinstance(n.value, ast.BinOp) and isinstance(n.value.op, ast.Mult)]
+    for n in fills:
+        lst, cnt = (n.value.left, n.value.right) if isinstance(n.value.left, ast.List) else (n.value.right, n.value.left)
+        fv = try_fold(lst.elts[0], ctx.env) if isinstance(lst, ast.List) and len(lst.elts) == 1 else None
+        cv = try_fold(cnt, ctx.env)
+        if fv is None or cv is None:
+            c.undecided("DiskFile.__init__:blank", "fill-not-foldable", U(n.value), repo.loc(init, n))
+        else:
+            c.check(fv == D.FAT_FREE and cv == D.IMAGE_SIZE, "DiskFile.__init__:blank", "a new image is %d bytes of FF" % D.IMAGE_SIZE, "a new image is %d bytes of %#04x" % (cv, fv),
+                    "a new DiskFile starts as %d bytes of %02X; a blank disk is %d bytes of FF (FF in the FAT = free granule, FF in the directory = never used)" % (cv, fv & 0xFF, D.IMAGE_SIZE),
+                    repo.loc(init, n))
     # index of the FAT byte: FAT_OFFSET + granule
     for r in rets:
         if isinstance(r, ast.Compare):
@@ -391,6 +428,14 @@ def dsk2(ctx, c):
         st.sort(key=lambda x: x[0].c if isinstance(x[0], Lin) else 0)
         got = []
         for off, lo, hi, val, node in st:
+            if isinstance(off, Lin) and set(off.terms) == {p_entry} and off.terms[p_entry] != D.DIR_ENTRY_LEN:
+                k2 = ("stride", off.terms[p_entry])
+                if k2 not in judged:
+                    judged.add(k2)
+                    c.finding("write_dir_entry:stride", "entry n is written at DIR_OFFSET %+d * n" % off.terms[p_entry],
+                              "write_dir_entry places entry n at %d bytes per entry from the start of the directory; directory entries are 32 bytes apart, so every entry but the "
+                              "first overlaps or misses its slot" % off.terms[p_entry], repo.loc(fn, node))
+                continue
             if not (isinstance(off, Lin) and off.terms == {p_entry: D.DIR_ENTRY_LEN}):
                 c.undecided("write_dir_entry:store", "offset-not-entry-relative", repr(off), repo.loc(fn, node))
                 continue
@@ -455,7 +500,11 @@ def dsk2(ctx, c):
     if loop is None:
         c.undecided("list_files", "entry-loop-not-found", "", wl)
         return
-    cnt = try_fold(loop.iter.args[-1], ctx.env) if isinstance(loop.iter, ast.Call) and U(loop.iter.func) == "range" else None
+    cnt = None
+    if isinstance(loop.iter, ast.Call) and U(loop.iter.func) == "range" and 1 <= len(loop.iter.args) <= 2:
+        rv = [try_fold(a_, ctx.env) for a_ in loop.iter.args]
+        if all(isinstance(v, int) for v in rv):
+            cnt = rv[0] if len(rv) == 1 else rv[1] - rv[0]
     c.check(cnt == D.DIR_ENTRIES, "list_files:entries", "72 entries scanned", "%s entries scanned" % cnt, "list_files scans %s directory entries, the directory has 72" % cnt, wl)
     synth = ast.FunctionDef(name="entry", args=ast.arguments(posonlyargs=[], args=[ast.arg(arg="self")], kwonlyargs=[], kw_defaults=[], defaults=[]),
                             body=loop.body, decorator_list=[], lineno=loop.lineno)
@@ -1094,7 +1143,124 @@ def vf6(ctx, c):
 
 
 
-RULES = {"DSK-13": dsk13, "VF-6": vf6, "DSK-1": dsk1, "DSK-2": dsk2, "DSK-3": dsk3, "DSK-4": dsk4, "DSK-6": dsk6, "DSK-7": dsk7, "DSK-12": dsk12}
+WORKERS = ("write_to_granules", "write_dir_entry", "write_to_fat", "find_empty_granule", "find_empty_directory_entry", "calculate_granules_needed",
+           "calculate_last_sector_bytes_used", "calculate_last_granules_sectors_used", "granule_in_use", "directory_entry_in_use")
+
+
+def dsk8(ctx, c):
+    """DSK-8 DiskFile.add_file evaluated for each file kind (machine language, ASCII, BASIC/data): header and trailer objects carry the file's own
+    length and addresses; granules found are the granules recorded; the directory entry, the data and the FAT chain are all written, each from
+    the values computed for this file."""
+    from ..inline import flatten
+    from ..concrete import Obj, ClsRef, run_concrete
+    repo = ctx.repo
+    af = repo.method(CLS, "add_file")
+    where = repo.loc(af, af.node)
+    p_file = [p for p in af.params if p != "self"][0]
+    flat = flatten(repo, af, depth=2, only={m_ for m_ in repo.cls(CLS).methods if m_ not in WORKERS})
+    classes = [cn for cn in ("MLPreamble", "ASCIIPreamble", "BasicPreamble", "Postamble", "Preamble") if repo.has_cls(cn)]
+    for kind, t_int, d_int, want_pre, want_post in (("machine-language", 0x02, 0x00, "MLPreamble", "Postamble"), ("ASCII", 0x01, 0xFF, "ASCIIPreamble", None),
+                                                     ("BASIC", 0x00, 0x00, "BasicPreamble", None)):
+        env = dict(ctx.env)
+        for cn in classes + ["VirtualFileValidationError"]:
+            env[cn] = ClsRef(cn)
+        env.update({"%s.type.int" % p_file: t_int, "%s.data_type.int" % p_file: d_int})
+        events, notes = [], []
+        def resolver(name):
+            f_ = repo.lookup(repo.cls(CLS), name)
+            return f_.node if f_ is not None else None
+        end = run_concrete(body_without_doc(flat), env, events, notes, workers=WORKERS, resolver=resolver)
+        site = "add_file[%s]" % kind
+        calls = {}
+        for e in events:
+            if e[0] == "call" and e[1] == "self":
+                calls.setdefault(e[2], []).append(e[3])
+        problems = []
+
+        def need(cond, text):
+            if not cond:
+                problems.append(text)
+        pre_obj, post_obj = "<%s object>" % want_pre, ("<%s object>" % want_post if want_post else "None")
+        news = [e[1] for e in events if e[0] == "new"]
+        need(want_pre in news, "no %s is built for a %s file (built: %s)" % (want_pre, kind, news))
+        if want_post:
+            need(want_post in news, "no %s is built for a %s file" % (want_post, kind))
+        # fields of the header / trailer objects
+        fields = {}
+        for e in events:
+            if e[0] == "new":
+                for k, v in e[3].attrs.items():
+                    fields[(e[1], k)] = v
+        if kind != "ASCII":
+            dl = str(fields.get((want_pre, "data_length"), ""))
+            need("len(%s.data)" % p_file in dl, "the %s header's data_length is %s, not the length of the file's data" % (kind, dl or "never set"))
+        if kind == "machine-language":
+            la = str(fields.get((want_pre, "load_addr"), ""))
+            need(la == "%s.load_addr" % p_file, "the header's load_addr is %s, not the file's load address" % (la or "never set"))
+            ea = str(fields.get((want_post, "exec_addr"), ""))
+            need(ea == "%s.exec_addr" % p_file, "the trailer's exec_addr is %s, not the file's entry address" % (ea or "never set"))
+        # allocation list
+        lists = [e for e in events if e[0] == "call" and e[2] == "append" and any("find_empty_granule" in a for a in e[3])]
+        grans = None
+        if not lists:
+            alt = [k for k, v in env.items() if isinstance(v, str) and "find_empty_granule" in v and "[" in v]
+            need(bool(alt), "the granule returned by find_empty_granule is never recorded in the allocation list")
+        else:
+            grans = lists[0][1]
+        wd, wg, wf = calls.get("write_dir_entry"), calls.get("write_to_granules"), calls.get("write_to_fat")
+        need(bool(wd), "write_dir_entry is never called: the file gets no directory entry")
+        need(bool(wg), "write_to_granules is never called: the data is never stored")
+        need(bool(wf), "write_to_fat is never called: the granules stay marked but unchained")
+        if wd and len(wd[0]) >= 4:
+            a = wd[0]
+            need("find_empty_directory_entry" in a[0], "the directory slot passed to write_dir_entry is %s" % a[0])
+            need(a[1] == p_file, "write_dir_entry receives %s as the file" % a[1])
+            if grans:
+                need(a[2] == "%s[0]" % grans, "the first granule recorded in the directory entry is %s, not %s[0]" % (a[2], grans))
+            need("calculate_last_sector_bytes_used" in a[3], "the last-sector byte count passed to write_dir_entry is %s" % a[3])
+        if wg and len(wg[0]) >= 4:
+            a = wg[0]
+            need(a[0] == "%s.data" % p_file, "write_to_granules stores %s, not the file's data" % a[0])
+            if grans:
+                need(a[1] == grans, "write_to_granules lays the data over %s, not the allocation list %s" % (a[1], grans))
+            need(a[2] == pre_obj, "write_to_granules receives %s as header (a %s file needs %s)" % (a[2], kind, pre_obj))
+            need(a[3] == post_obj, "write_to_granules receives %s as trailer (a %s file needs %s)" % (a[3], kind, post_obj))
+        if wf and len(wf[0]) >= 2:
+            a = wf[0]
+            if grans:
+                need(a[0] == grans, "write_to_fat chains %s, not the allocation list %s" % (a[0], grans))
+            need("calculate_last_granules_sectors_used" in a[1], "the sector count passed to write_to_fat is %s" % a[1])
+        for fname in ("calculate_granules_needed", "calculate_last_sector_bytes_used", "calculate_last_granules_sectors_used"):
+            for a in calls.get(fname, []):
+                if len(a) >= 3:
+                    need(a[0] == "%s.data" % p_file and a[1] == pre_obj and a[2] == post_obj,
+                         "%s is given (%s) for a %s file; it needs the file's data, its %s and %s" % (fname, ", ".join(a), kind, pre_obj, post_obj))
+        order = [e[2] for e in events if e[0] == "call" and e[1] == "self" and e[2] in ("find_empty_granule", "write_to_granules", "write_to_fat")]
+        if "find_empty_granule" in order and "write_to_granules" in order:
+            need(order.index("find_empty_granule") < order.index("write_to_granules"), "data is written before granules are allocated")
+        if not problems:
+            c.ok(site, "header/trailer from the file, granules recorded, directory entry + data + FAT written from this file's values", where)
+        elif notes:
+            c.undecided(site, "pipeline-not-evaluable", "%s; not evaluated: %s" % (problems[0], "; ".join(sorted(set(notes)))[:100]), where)
+        else:
+            c.finding(site, problems[0][:110], "DiskFile.add_file evaluated for a %s file: %s" % (kind, "; ".join(problems)), where)
+    # the allocation loop stops at exactly the number needed
+    for n in ast.walk(flat):
+        if isinstance(n, ast.While) and isinstance(n.test, ast.Compare) and len(n.test.ops) == 1 and "len(" in U(n.test) and "needed" in U(n.test):
+            l_is_len = "len(" in U(n.test.left)
+            op = type(n.test.ops[0])
+            over = (l_is_len and op is ast.LtE) or (not l_is_len and op is ast.GtE)
+            under = (l_is_len and op in (ast.Gt, ast.GtE)) or (not l_is_len and op in (ast.Lt, ast.LtE))
+            if over:
+                c.finding("add_file:allocation-count", "allocates while %s" % U(n.test), "add_file keeps allocating while `%s`: one granule more than the file needs is taken "
+                          "and marked in use" % U(n.test), repo.loc(af, n))
+            elif under:
+                c.finding("add_file:allocation-count", "allocates while %s" % U(n.test), "add_file allocates while `%s`, which never holds for an empty list" % U(n.test), repo.loc(af, n))
+            else:
+                c.ok("add_file:allocation-count", "allocates until the list holds granules_needed entries", repo.loc(af, n))
+
+
+RULES = {"DSK-8": dsk8, "DSK-13": dsk13, "VF-6": vf6, "DSK-1": dsk1, "DSK-2": dsk2, "DSK-3": dsk3, "DSK-4": dsk4, "DSK-6": dsk6, "DSK-7": dsk7, "DSK-12": dsk12}
 
 
 def dsk5(ctx, c):
@@ -1137,7 +1303,18 @@ def dsk5(ctx, c):
     if good:
         c.ok("write_to_granules:preamble", "preamble written at the start of the first granule and counted in skip_bytes", where)
     else:
-        c.undecided("write_to_granules:preamble", "shape-unknown", "", where)
+        # the header is written into the granule (a .write call on it) - is its length taken off the room left?
+        writes_pre = any(isinstance(n, ast.Call) and U(n.func) == "%s.write" % p_pre for n in ast.walk(fn.node))
+        cap_vars = {x.id for x in ast.walk(fit.test.comparators[0]) if isinstance(x, ast.Name)} - {p_data}
+        defs = [n for n in ast.walk(fn.node) if isinstance(n, (ast.Assign, ast.AugAssign)) and
+                U(n.targets[0] if isinstance(n, ast.Assign) else n.target) in cap_vars]
+        counted = any("length" in U(n.value) for n in defs) or ".length" in U(fit.test)
+        if writes_pre and cap_vars and defs and not counted:
+            c.finding("write_to_granules:preamble", "the header is written into the granule but its length is not taken off the room left",
+                      "write_to_granules writes the preamble at the start of the first granule, yet %s is only ever %s: the first granule then receives a full granule of data behind the "
+                      "header and the last %s bytes land in the following granule" % (sorted(cap_vars)[0], sorted({U(n.value) for n in defs}), "header-length"), where)
+        else:
+            c.undecided("write_to_granules:preamble", "shape-unknown", "", where)
     start = re.search(r"granule = %s\[0\]\s+%s = %s\[1:\]\s+pointer = self\.seek_granule\(granule\)" % (p_gran, p_gran, p_gran), t) is not None
     c.check(start, "write_to_granules:granule", "writes into the head of the allocation list and passes the tail on", "shape changed",
             "write_to_granules does not take allocated_granules[0] for this chunk and pass allocated_granules[1:] on", where)
